@@ -165,7 +165,9 @@ func main() {
 		Packages: len(p.Pkgs), Functions: len(p.Funcs), Instrs: p.NumInstr, Commit: repoState(),
 		Cmd: "./check " + cmd + " " + tier,
 		WorldInfo: map[string]interface{}{"objects": len(w.It.Objects), "entries": len(w.Entries), "inference_rounds": w.Rounds, "invariant_cells": len(w.Inv), "int_width": intWidth()}}
-	os.Exit(report.Finish(res, meta))
+	code := report.Finish(res, meta)
+	pprof.StopCPUProfile()
+	os.Exit(code)
 }
 
 func intWidth() int {
